@@ -60,6 +60,16 @@ def make_jobs(rng, n):
             if props:
                 items.append("{FOCUS <%s> _}@<%sS2>" % (rng.choice(props), EX))
                 items.append('SPARQL "select ?n where { ?n <%s> ?o }"@<%sS3>' % (rng.choice(props), EX))
+            if len(classes) >= 2 and rng.random() < 0.6:
+                # one shape per class plus an entry whose node has no triple at all: its shape ends up empty and is removed, which must not
+                # disturb the order of the shapes that stay
+                items = ["{FOCUS a <%s>}@<%sK%d>" % (c, EX, k) for k, c in enumerate(classes)] + ["<%snobody>@<%sGhost>" % (EX, EX)]
+                rng.shuffle(items)
+                kw['remove_empty_shapes'] = True
+                kw = {k: v for k, v in kw.items() if k not in ('target_classes', 'all_classes_mode')}
+                kw['shape_map_raw'] = "\n".join(items)
+                tmode = 'shapemap'
+                items = []
             rng.shuffle(items)
             if items:
                 kw = {k: v for k, v in kw.items() if k not in ('target_classes', 'all_classes_mode')}
